@@ -26,6 +26,12 @@ class ConstantOp(Operation):
             value_type = IntegerType(value_type)
         return ConstantOp(IntegerAttr(value, value_type), value_type)
 
+    def clone(self, value_mapper=None, block_mapper=None):
+        new = ConstantOp(self.value, self.results[0].type)
+        if value_mapper is not None:
+            value_mapper[self.results[0]] = new.results[0]
+        return new
+
 
 class _Binary(Operation):
     def __init__(self, lhs, rhs, result_type=None):
@@ -45,6 +51,14 @@ class _Binary(Operation):
     @property
     def rhs(self):
         return self.operands[1]
+
+    def clone(self, value_mapper=None, block_mapper=None):
+        """as xdsl: same op class on the mapped operands (the denotation is recomputed from them)"""
+        vm = value_mapper if value_mapper is not None else {}
+        a, b = self.operands[0], self.operands[1]
+        new = type(self)(vm[a] if a in vm else a, vm[b] if b in vm else b, self.results[0].type)
+        vm[self.results[0]] = new.results[0]
+        return new
 
 
 class AddiOp(_Binary):
@@ -143,6 +157,13 @@ class IndexCastOp(Operation):
     def __init__(self, inp, target_type=None):
         inp = SSAValue.get(inp)
         self._init_op([inp], [inp.den], [target_type])
+
+    def clone(self, value_mapper=None, block_mapper=None):
+        vm = value_mapper if value_mapper is not None else {}
+        a = self.operands[0]
+        new = IndexCastOp(vm[a] if a in vm else a, self.results[0].type)
+        vm[self.results[0]] = new.results[0]
+        return new
 
     @property
     def input(self):
